@@ -576,11 +576,20 @@ def rule_cell_text_filtered(ctx: Ctx) -> RuleResult:
             continue
         fi = p.functions[q]
         cfg = cfg_of(fi)
-        decs = [c for c in fi.own_nodes() if isinstance(c, ast.Call) and isinstance(c.func, ast.Attribute) and c.func.attr == "decode" and isinstance(c.func.value, ast.Name) and c.args and isinstance(c.args[0], ast.Name) and c.args[0].id == "encoding"]
+        # cell text: the text component of a (attr, charset, text) triple - a `for a, cs, X in ...` target or an
+        # unpacking `(a, cs, X) = ...` - decoded with the target encoding
+        triples = set()
+        for n in fi.own_nodes():
+            tg = None
+            if isinstance(n, ast.For):
+                tg = n.target
+            elif isinstance(n, ast.Assign) and len(n.targets) == 1:
+                tg = n.targets[0]
+            if isinstance(tg, ast.Tuple) and len(tg.elts) == 3 and all(isinstance(e, ast.Name) for e in tg.elts):
+                triples.add(tg.elts[2].id)
+        decs = [c for c in fi.own_nodes() if isinstance(c, ast.Call) and isinstance(c.func, ast.Attribute) and c.func.attr == "decode" and isinstance(c.func.value, ast.Name) and c.func.value.id in triples]
         for c in decs:
             nm = c.func.value.id
-            if nm == "line":
-                continue  # the final write loop: already-built output strings
             cn = next((x for x in cfg.nodes if any(y is c for e in node_exprs(x) for y in ast.walk(e))), None)
             trans = [x for x in cfg.nodes if isinstance(x.ast, ast.Assign) and any(isinstance(t, ast.Name) and t.id == nm for t in x.ast.targets) and isinstance(x.ast.value, ast.Call) and isinstance(x.ast.value.func, ast.Attribute) and x.ast.value.func.attr == "translate" and isinstance(x.ast.value.func.value, ast.Name) and x.ast.value.func.value.id == nm and "UNPRINTABLE" in ast.unparse(x.ast.value)]
             # the translate is skipped only under a test that mentions "U"
